@@ -89,6 +89,7 @@ def source_key():
     except Exception:
         pass
     h.update(repo_path().encode())
+    h.update(_PREP.encode())
     return h.hexdigest()[:16]
 
 
@@ -104,7 +105,9 @@ def solve(threads):
     config.NUM_THREADS = threads
     z = np.linspace(0.1, 4.0, 5)
     prof = (np.full(5, 2.0), np.full(5, 0.5), np.full(5, 1.0), np.full(5, 1.0), np.linspace(0.2, 1.0, 5))
-    steady_state_transport_solver(np.ones((6, 8)), z, prof, (80.0, 60.0), 2, modes=(4, 4), footprint=True, halo=20.0, precision="double")
+    # both `levels` signatures the library itself produces: int64 array (scalar level) and list
+    for lv in (2, [1, 2]):
+        steady_state_transport_solver(np.ones((6, 8)), z, prof, (80.0, 60.0), lv, modes=(4, 4), footprint=True, halo=20.0, precision="double")
 for t in ((1, 4) if order == "serial_first" else (4, 1)):
     solve(t)
 os._exit(0)
